@@ -68,6 +68,10 @@ func New(expr parser.Expr, queryable storage.Queryable, mint, maxt time.Time, st
 }
 
 func newOperator(expr parser.Expr, storage *engstore.SelectorPool, opts *query.Options, hints storage.SelectHints) (model.VectorOperator, error) {
+	expr, verifOp, verifErr, verifDone := verifEnter(expr, storage, opts, hints)
+	if verifDone {
+		return verifOp, verifErr
+	}
 	switch e := expr.(type) {
 	case *parser.NumberLiteral:
 		return scan.NewNumberLiteralSelector(model.NewVectorPool(stepsBatch), opts, e.Val), nil
@@ -146,6 +150,7 @@ func newOperator(expr parser.Expr, storage *engstore.SelectorPool, opts *query.O
 						scan.NewMatrixSelector(model.NewVectorPool(stepsBatch), filter, call, e, opts, t.Range, vs.Offset, i, numShards),
 						2,
 					)
+					operator = verifWrap(operator, e, opts)
 					operators = append(operators, operator)
 				}
 
@@ -194,6 +199,7 @@ func newOperator(expr parser.Expr, storage *engstore.SelectorPool, opts *query.O
 		if err != nil {
 			return nil, err
 		}
+		next = verifWrap(next, e, opts)
 
 		return exchange.NewConcurrent(next, 2), nil
 
@@ -296,6 +302,7 @@ func newShardedVectorSelector(selector engstore.SeriesSelector, opts *query.Opti
 		operator := exchange.NewConcurrent(
 			scan.NewVectorSelector(
 				model.NewVectorPool(stepsBatch), selector, opts, offset, i, numShards), 2)
+		operator = verifWrap(operator, nil, opts)
 		operators = append(operators, operator)
 	}
 
